@@ -26,6 +26,7 @@ var corpus = [][]Call{
 	h(fc("try", "async", "limit", 1)),
 	h(fc("new", "generator", "limit", 2)),
 	h(fc("new", "async", "limit", 2)),
+	h(fc("script", "S_gen", "limit", 1)),
 	// a foreign Go panic leaves vm.prg / the job queue behind
 	h(fc("run", "loop", "foreign", 1)),
 	h(fc("run", "generator", "foreign", 1)),
@@ -37,11 +38,20 @@ var corpus = [][]Call{
 	// uncatchable error through Runtime.Try / Runtime.New at top level keeps the queued jobs
 	h(fc("new", "asyncreject", "limit", 4)),
 	h(fc("get", "async", "limit", 5)),
+	// smallest witnesses of the mutants in /verif/mutants/C03-*.patch (they pass on the unchanged tree, apart from the
+	// listed foreign-panic findings)
+	h(fc("call", "yieldstar", "goerr", 4), uc("call", "yieldstar")),                    // generator.nextThrow forgets popTryFrame
+	h(fc("call", "genreturn", "foreign", 2)), h(fc("run", "gendelegates", "limit", 4)), // aborted generator keeps converted finally frames
+	h(fc("export", "withrefs", "goerr", 2)),                                 // restoreStacks keeps reference records
+	h(fc("call", "classes", "goerr", 1)),                                    // handleThrow keeps privEnv
+	h(fc("call", "deep", "limit", 5)), h(fc("call", "async", "foreign", 2)), // handleThrow keeps sp for uncatchable errors
+	h(fc("new", "asyncchain", "limit", 5)), h(fc("call", "async", "foreign", 3)), // curAsyncRunner reset not deferred
+	h(uc("script", "S_async"), fc("script", "S_async", "throw", 1)), // async start keeps sp
 }
 
 func regression(r *core.Run) bool {
 	for _, hist := range corpus {
-		if r.Expired() {
+		if expired(r) {
 			return false
 		}
 		fails := judgeHistory(hist, r)
